@@ -48,7 +48,8 @@ _OBS = []
 def _run_one(i):
     ob = _OBS[i]
     t0 = time.time()
-    from . import nf, smt, symtorch
+    from . import nf, smt, symtorch, cond
+    cond.TIES[0] = "stable"
     nf.reset()
     smt.STATS.update(queries=0, seconds=0.0, unknown=0)
     symtorch.OPS_USED.clear()
@@ -131,7 +132,8 @@ def run_property(pid, tier, seed, obligations, meta, jobs=None):
     errors = []
     for r in results:
         if r["status"] == "refuted":
-            k = next((k for k in known if k["obligation"] == r["name"]), None)
+            k = next((k for k in known if k.get("obligation") == r["name"]
+                      or (k.get("obligation_prefix") and r["name"].startswith(k["obligation_prefix"]))), None)
             if k is not None:
                 known_hits.append((k, r))
             else:
@@ -141,12 +143,17 @@ def run_property(pid, tier, seed, obligations, meta, jobs=None):
         elif r["status"] == "error":
             errors.append(r)
 
+    seen_k = set()
     for k, r in known_hits:
-        print("KNOWN-FINDING: property=%s %s [%s]" % (pid, k["what"], r["name"]))
+        if id(k) in seen_k:
+            continue
+        seen_k.add(id(k))
+        n_same = sum(1 for kk, _ in known_hits if kk is k)
+        print("KNOWN-FINDING: property=%s %s [%s%s]" % (pid, k["what"], r["name"], (" and %d more obligations of the same call site" % (n_same - 1)) if n_same > 1 else ""))
     # a listed finding whose obligation is now discharged: report (informational)
     names_refuted = {r["name"] for r in results if r["status"] == "refuted"}
     for k in known:
-        if k["obligation"] not in names_refuted:
+        if k.get("obligation") and k["obligation"] not in names_refuted:
             present = any(r["name"] == k["obligation"] for r in results)
             if present:
                 print("NOTE property=%s known finding no longer reproduces: %s" % (pid, k["obligation"]))
